@@ -284,6 +284,7 @@ def nontrivial(script, c_lines):
 
 
 def tally(chk, script, c_lines):
+    chk.exhaustive = True   # stream 1 enumerates its stated scope completely
     d = chk.__dict__.setdefault("distribution", {})
     w = script[0].split()
     k = "%s:%s" % (w[0], w[2] if len(w) > 2 and w[0] != "py" else "-")
